@@ -9,7 +9,8 @@ MANIFEST_TEXT = ("Lean 4 theorems for all process counts, lengths, displacements
                  "compose for arbitrarily nested members; the datatype built for IndexPair is exactly {global index, "
                  "attribute}, for pairs/FieldVector/bigunsignedint all members; the ComposeMPITraits / ComposeMPIOp "
                  "tables of the current sources map every C++ type / functor to the handle the MPI standard defines for "
-                 "it and user functors are registered as non-commutative with the operand order MPI prescribes; the lazily "
+                 "it, every predefined operation of ComposeMPIOp is one MPI defines on every datatype of ComposeMPITraits "
+                 "(builtin_ops_defined: no logical/byte type may become is_intrinsic), and user functors are registered as non-commutative with the operand order MPI prescribes; the lazily "
                  "created singletons (one MPI_Op per (element type, functor), one MPI_Datatype per type) are history "
                  "independent: in the current sources (table re-extracted on every run) every template parameter the "
                  "creation of a handle depends on selects its static storage, hence after any sequence of calls every call "
@@ -37,8 +38,9 @@ MANIFEST_TEXT = ("Lean 4 theorems for all process counts, lengths, displacements
                  "elements and reduces with the MPI_Op of the element type its datatype describes; the counts of "
                  "igather/iscatter/iallgather are the per-rank sizes for all sizes and process counts.  Each run executes the real "
                  "Communication<MPI_Comm>, Communication<No_Comm>, MPIPack, send/recv/rrecv (with and without status) and "
-                 "MPITraits datatypes on 1-4 (thorough 1-7) ranks for 27 element types (all intrinsic types of "
-                 "mpitraits.hh, byte-fallback types, padded and nested pairs, FieldVector<int,3/2> and of pairs, "
+                 "MPITraits datatypes on 1-4 (thorough 1-7) ranks for 30 element types (all intrinsic types of "
+                 "mpitraits.hh, byte-fallback types incl. bool / signed char / long long / unsigned long long with the four "
+                 "named reductions in scalar, array, in-place and in/out form, padded and nested pairs, FieldVector<int,3/2> and of pairs, "
                  "bigunsignedint<96/40>, IndexPair, ParallelLocalIndex), MPIData container views of std::vector, std::array<T,3>, "
                  "DynamicVector<T> and FieldVector objects in the reductions, single calls and call histories executed in one "
                  "process (one generic functor such as std::plus<> over several element types, several functors on one "
